@@ -140,9 +140,11 @@ theorem csv_preview_no_error (f : CsvFile) (hlen : f.rows.length ≤ previewRows
   have htake : f.rows.take previewRows = f.rows := List.take_of_length_le hlen
   unfold csvRun csvCreate
   simp only [htake]
+  by_cases hd : f.dupHeader = true
+  · simp [hd]
   by_cases hr : (firstRagged f.ncols 0 f.rows).isSome = true
-  · simp [hr]
-  · simp only [hr, Bool.false_eq_true, if_false]
+  · simp [hd, hr]
+  · simp only [hd, hr, Bool.false_eq_true, if_false]
     split
     · simp
     · simp
